@@ -15,7 +15,8 @@ PROP = {'title': 'optional / either / variant combinators satisfy their algebrai
                'arguments show up as wrong values; n-ary (n=3) applications use one injective recording function instead of all tables; '
                'quick tier: containers up to length 3, binary tables into a 2-element codomain, monad::do_ on either with 25 of the 125 first-step tables',
  'binaries': [{'name': 'C04',
-               'sources': ['harness/C04.cpp', 'harness/C04_either.cpp', 'harness/C04_variant.cpp'],
+               'sources': ['harness/C04.cpp', 'harness/C04_either.cpp', 'harness/C04_variant.cpp', 'harness/C04_poly.cpp',
+                           'harness/C04_rich_val.cpp', 'harness/C04_rich_heap.cpp', 'harness/C04_rich_move_only.cpp'],
                'libs': [],
                'flavour': 'asan'}],
  'deadline': {'quick': 240, 'thorough': 1200},
